@@ -21,6 +21,15 @@ def twin_check():
         def process(self, dt):
             pass
 
+    class Mid(desper.Processor):
+        priority = 5
+
+        def process(self, dt):
+            pass
+
+    class Late(P1):
+        priority = 10
+
     class Ctl(desper.Controller):
         a = desper.ComponentReference(A)
         p = desper.ProcessorReference(P1)
@@ -84,6 +93,20 @@ def twin_check():
             s2 = snapshot(w2, pool[2:4])
             if s1 != s2:
                 return ('C19', 'worlds differ after %s in %r' % (op, seq), 'effect')
+    # references with processors whose priority is not the declared type's default
+    for make in (lambda: Late(), lambda: (lambda p: (setattr(p, 'priority', 7), p)[1])(P1())):
+        w1, w2 = desper.World(), desper.World()
+        c1 = Ctl()
+        w1.create_entity(c1)
+        w1.add_processor(Mid()); w2.add_processor(Mid())
+        pa, pb = make(), make()
+        c1.p = pa
+        w2.add_processor(pb)
+        if [type(p).__name__ for p in w1.processors] != [type(p).__name__ for p in w2.processors] \
+                or pa.priority != pb.priority:
+            return ('C19', 'assigning a ProcessorReference gives order %r priority %r, World.add_processor %r priority %r'
+                    % ([type(p).__name__ for p in w1.processors], pa.priority,
+                       [type(p).__name__ for p in w2.processors], pb.priority), 'procref-priority')
     # OnUpdateProcessor
     log = []
 
